@@ -242,6 +242,8 @@ def run(tier, seed):
            "function_calls": ncalls, "exhaustive": False,
            "rule": "case = builder x Pythagorean angle arguments (exact matrix from TLC), Rodrigues vectors up to |r| = 1000; inverses on "
                    "every lattice matrix; near-gimbal: full product of magnitude classes (PHI = 0/pi +- 1e-1..1e-13)"}
+    if tier == "thorough":
+        common.apalache_obligations(wd, ["CayleyOrthogonal"], cov)
     return v.finish("model_checking", cov, ASSUME)
 
 
